@@ -1,8 +1,719 @@
 package main
 
-// Replay of refuted obligations on the real code (adapters are added per function family).
+// Replay of refuted postconditions on the real code.
+//
+// For a function without receiver whose parameters are integers, booleans, strings, []byte or []int, a refuted
+// postcondition comes with a model of the inputs. The model is read back from the solver (get-value on the parameter
+// leaves and on the elements of the slices), turned into Go literals, and a test is generated that calls the real
+// function with these inputs and evaluates the postcondition - translated from the contract expression into Go - on
+// the real result. The test is injected with `go test -overlay` (nothing is written to the repository). Only if that
+// test reports the postcondition violated is the input counted as a failing input; everything else (methods, heap
+// inputs, at-call clauses, invariants, models that do not reproduce) keeps the suffix no-failing-input-found.
 
+import (
+	"context"
+	"encoding/json"
+	"fmt"
+	"go/types"
+	"os"
+	"os/exec"
+	"path/filepath"
+	"regexp"
+	"sort"
+	"strconv"
+	"strings"
+	"time"
+)
+
+type ReplaySpec struct {
+	ModuleDir string `json:"module_dir"`
+	PkgDir    string `json:"pkg_dir"`
+	PkgRel    string `json:"pkg_rel"`
+	TestName  string `json:"test_name"`
+	TestFile  string `json:"test_file"`
+	TestSrc   string `json:"test_src"`
+	Inputs    string `json:"inputs"`
+}
+
+type rParam struct {
+	name string
+	kind string // int bool string bytes ints
+	T    types.Type
+}
+
+func replayKind(T types.Type) string {
+	switch t := types.Unalias(T).Underlying().(type) {
+	case *types.Basic:
+		switch {
+		case t.Info()&types.IsInteger != 0:
+			return "int"
+		case t.Info()&types.IsBoolean != 0:
+			return "bool"
+		case t.Info()&types.IsString != 0:
+			return "string"
+		}
+	case *types.Slice:
+		if b, ok := types.Unalias(t.Elem()).Underlying().(*types.Basic); ok {
+			if b.Kind() == types.Byte || b.Kind() == types.Uint8 {
+				return "bytes"
+			}
+			if b.Info()&types.IsInteger != 0 {
+				return "ints"
+			}
+		}
+	}
+	return ""
+}
+
+type goTr struct {
+	fg      *FnGen
+	pkg     *types.Package
+	imports map[string]string // path -> name
+	params  map[string]rParam
+	results []rParam
+	env     map[string]CExpr // macro parameters / lets
+	inOld   bool
+	bound   map[string]bool
+	err     error
+}
+
+func (tr *goTr) fail(format string, a ...any) string {
+	if tr.err == nil {
+		tr.err = fmt.Errorf(format, a...)
+	}
+	return "false"
+}
+
+func (tr *goTr) typeStr(T types.Type) string {
+	return types.TypeString(T, func(p *types.Package) string {
+		if p == tr.pkg {
+			return ""
+		}
+		tr.imports[p.Path()] = p.Name()
+		return p.Name()
+	})
+}
+
+// expr translates a contract expression into Go. Integers are int64 throughout.
+func (tr *goTr) expr(e CExpr) string {
+	switch x := e.(type) {
+	case *CInt:
+		return "int64(" + x.Val + ")"
+	case *CStr:
+		return strconv.Quote(x.Val)
+	case *CIdent:
+		if tr.bound[x.Name] {
+			return x.Name
+		}
+		if sub, ok := tr.env[x.Name]; ok {
+			saved := tr.env
+			tr.env = map[string]CExpr{}
+			for k, v := range saved {
+				if k != x.Name {
+					tr.env[k] = v
+				}
+			}
+			r := tr.expr(sub)
+			tr.env = saved
+			return r
+		}
+		switch x.Name {
+		case "true", "false":
+			return x.Name
+		case "nil":
+			return "nil"
+		}
+		if p, ok := tr.params[x.Name]; ok {
+			n := "a_" + p.name
+			if tr.inOld && (p.kind == "bytes" || p.kind == "ints") {
+				n += "_old"
+			}
+			if p.kind == "int" {
+				return "int64(" + n + ")"
+			}
+			return n
+		}
+		if strings.HasPrefix(x.Name, "result") {
+			i := 0
+			if x.Name != "result" {
+				var err error
+				i, err = strconv.Atoi(strings.TrimPrefix(x.Name, "result"))
+				if err != nil {
+					return tr.fail("unsupported identifier %s", x.Name)
+				}
+			}
+			if i < len(tr.results) {
+				if tr.results[i].kind == "int" {
+					return fmt.Sprintf("int64(r%d)", i)
+				}
+				return fmt.Sprintf("r%d", i)
+			}
+		}
+		if l, ok := tr.fg.c.letExpr(x.Name); ok {
+			saved := tr.inOld
+			tr.inOld = true // lets are evaluated at entry
+			r := tr.expr(l)
+			tr.inOld = saved
+			return r
+		}
+		if obj := tr.pkg.Scope().Lookup(x.Name); obj != nil {
+			if c, ok := obj.(*types.Const); ok {
+				if replayKind(c.Type()) == "int" {
+					return "int64(" + x.Name + ")"
+				}
+				return x.Name
+			}
+		}
+		return tr.fail("unsupported identifier %s", x.Name)
+	case *COld:
+		saved := tr.inOld
+		tr.inOld = true
+		r := tr.expr(x.X)
+		tr.inOld = saved
+		return r
+	case *CUn:
+		switch x.Op {
+		case "!":
+			return "!(" + tr.expr(x.X) + ")"
+		case "-":
+			return "(-" + tr.expr(x.X) + ")"
+		}
+		return tr.fail("unsupported operator %s", x.Op)
+	case *CBin:
+		l, r := tr.expr(x.L), tr.expr(x.R)
+		switch x.Op {
+		case "==>":
+			return "(!(" + l + ") || (" + r + "))"
+		case "<==>":
+			return "((" + l + ") == (" + r + "))"
+		case "&&", "||", "==", "!=", "<", "<=", ">", ">=", "+", "-", "*":
+			if (x.Op == "==" || x.Op == "!=") && (l == "nil" || r == "nil") {
+				return "(" + l + " " + x.Op + " " + r + ")"
+			}
+			return "(" + l + " " + x.Op + " " + r + ")"
+		case "/":
+			return "(" + l + " / " + r + ")"
+		case "%":
+			return "(" + l + " % " + r + ")"
+		}
+		return tr.fail("unsupported operator %s", x.Op)
+	case *CIdx:
+		return "int64(" + tr.expr(x.X) + "[int(" + tr.expr(x.I) + ")])"
+	case *CSel:
+		if id, ok := x.X.(*CIdent); ok {
+			if _, isP := tr.params[id.Name]; !isP && !tr.bound[id.Name] {
+				env := tr.fg.env(tr.fg.entry, tr.fg.entry, nil)
+				if path := tr.fg.pkgByName(id.Name, env); path != "" {
+					if p := tr.fg.g.allPkgs[path]; p != nil && p.Types != nil {
+						if c, ok := p.Types.Scope().Lookup(x.Name).(*types.Const); ok {
+							tr.imports[path] = p.Types.Name()
+							if replayKind(c.Type()) == "int" {
+								return "int64(" + p.Types.Name() + "." + x.Name + ")"
+							}
+							return p.Types.Name() + "." + x.Name
+						}
+					}
+				}
+			}
+		}
+		return tr.fail("unsupported selector %s", x.cstr())
+	case *CQuant:
+		if x.Lo == nil {
+			return tr.fail("unbounded quantifier cannot be evaluated")
+		}
+		lo, hi := tr.expr(x.Lo), tr.expr(x.Hi)
+		saved := tr.bound[x.Var]
+		tr.bound[x.Var] = true
+		body := tr.expr(x.Body)
+		tr.bound[x.Var] = saved
+		if x.Forall {
+			return fmt.Sprintf("func() bool { for %s := %s; %s < %s; %s++ { if !(%s) { return false } }; return true }()", x.Var, lo, x.Var, hi, x.Var, body)
+		}
+		return fmt.Sprintf("func() bool { for %s := %s; %s < %s; %s++ { if %s { return true } }; return false }()", x.Var, lo, x.Var, hi, x.Var, body)
+	case *CCall:
+		id, ok := x.Fn.(*CIdent)
+		if !ok {
+			return tr.fail("unsupported call %s", x.cstr())
+		}
+		switch id.Name {
+		case "len":
+			return "int64(len(" + tr.expr(x.Args[0]) + "))"
+		case "int", "int64", "int32", "uint32", "uint64", "byte", "uint8", "uint", "int8", "int16", "uint16":
+			return tr.expr(x.Args[0])
+		case "fresh", "allocated":
+			return "true"
+		}
+		if sf := tr.fg.g.cs.Specs[id.Name]; sf != nil && sf.Body != nil && len(sf.Params) == len(x.Args) && !sf.Rec {
+			saved := tr.env
+			tr.env = map[string]CExpr{}
+			for k, v := range saved {
+				tr.env[k] = v
+			}
+			// arguments are translated in the caller's environment: bind them as pre-translated text
+			for i, p := range sf.Params {
+				tr.env[p.Name] = &cRaw{tr.exprIn(saved, x.Args[i])}
+			}
+			r := tr.expr(sf.Body)
+			tr.env = saved
+			return r
+		}
+		return tr.fail("unsupported function %s", id.Name)
+	case *cRaw:
+		return x.S
+	}
+	return tr.fail("unsupported expression %s", e.cstr())
+}
+
+// cRaw is already translated Go text (arguments of spec macros).
+type cRaw struct{ S string }
+
+func (c *cRaw) cstr() string { return c.S }
+
+func (tr *goTr) exprIn(env map[string]CExpr, e CExpr) string {
+	saved := tr.env
+	tr.env = env
+	r := tr.expr(e)
+	tr.env = saved
+	return r
+}
+
+func (c *Contract) letExpr(name string) (CExpr, bool) {
+	for _, l := range c.Lets {
+		if l.Name == name {
+			return l.Expr, true
+		}
+	}
+	return nil, false
+}
+
+// ---------------------------------------------------------------------------------------------------------------
+
+var sexpTok = regexp.MustCompile(`\(|\)|\|[^|]*\||[^\s()]+`)
+
+type sexp struct {
+	atom string
+	list []*sexp
+}
+
+func parseSexp(s string) []*sexp {
+	toks := sexpTok.FindAllString(s, -1)
+	pos := 0
+	var rec func() *sexp
+	rec = func() *sexp {
+		if pos >= len(toks) {
+			return nil
+		}
+		t := toks[pos]
+		pos++
+		if t == "(" {
+			n := &sexp{}
+			for pos < len(toks) && toks[pos] != ")" {
+				n.list = append(n.list, rec())
+			}
+			pos++
+			return n
+		}
+		return &sexp{atom: t}
+	}
+	var out []*sexp
+	for pos < len(toks) {
+		out = append(out, rec())
+	}
+	return out
+}
+
+func sexpInt(n *sexp) (int64, bool) {
+	if n == nil {
+		return 0, false
+	}
+	if n.atom != "" {
+		v, err := strconv.ParseInt(n.atom, 10, 64)
+		return v, err == nil
+	}
+	if len(n.list) == 2 && n.list[0].atom == "-" {
+		v, ok := sexpInt(n.list[1])
+		return -v, ok
+	}
+	return 0, false
+}
+
+// getValues asks the solver for the value of the given terms in a model of the query (plus pinned facts).
+func getValues(work, tag, query string, pins, terms []string) ([]*sexp, bool) {
+	i := strings.LastIndex(query, "(check-sat)")
+	if i < 0 || len(terms) == 0 {
+		return nil, false
+	}
+	text := query[:i]
+	text = strings.Replace(text, "(set-option :produce-models false)", "", 1)
+	for _, p := range pins {
+		text += "(assert " + p + ")\n"
+	}
+	text += "(check-sat)\n(get-value (" + strings.Join(terms, " ") + "))\n"
+	if !strings.Contains(text, "produce-models") {
+		text = "(set-option :produce-models true)\n" + text
+	}
+	f := filepath.Join(work, "replay_"+tag+".smt2")
+	if err := os.WriteFile(f, []byte(text), 0o644); err != nil {
+		return nil, false
+	}
+	ctx, cancel := context.WithTimeout(context.Background(), 25*time.Second)
+	defer cancel()
+	out, _ := exec.CommandContext(ctx, "z3-new", "-T:20", f).CombinedOutput()
+	s := string(out)
+	if !strings.HasPrefix(strings.TrimSpace(s), "sat") {
+		return nil, false
+	}
+	rest := strings.TrimSpace(strings.TrimPrefix(strings.TrimSpace(s), "sat"))
+	parsed := parseSexp(rest)
+	if len(parsed) == 0 || len(parsed[0].list) != len(terms) {
+		return nil, false
+	}
+	var vals []*sexp
+	for _, pair := range parsed[0].list {
+		if len(pair.list) != 2 {
+			return nil, false
+		}
+		vals = append(vals, pair.list[1])
+	}
+	return vals, true
+}
+
+// buildReplay: nil (with the reason) when the obligation is outside the replayable class.
+func buildReplay(o *Obligation, work string, idx int, repoRoot string) (*ReplaySpec, string) {
+	fg := o.fg
+	if fg == nil || fg.c == nil || o.Kind != "post" {
+		return nil, "only refuted postconditions are replayed"
+	}
+	fn := fg.fn
+	if fn.Signature.Recv() != nil || len(fn.FreeVars) > 0 || fn.Parent() != nil || fn.Pkg == nil || fn.TypeParams().Len() > 0 {
+		return nil, "only package-level functions without receiver are replayed"
+	}
+	var clause *Clause
+	for i := range fg.c.Ensures {
+		if "postcondition: "+fg.c.Ensures[i].Src == o.Desc {
+			clause = &fg.c.Ensures[i]
+		}
+	}
+	if clause == nil {
+		return nil, "clause not found"
+	}
+	tr := &goTr{fg: fg, pkg: fn.Pkg.Pkg, imports: map[string]string{}, params: map[string]rParam{}, env: map[string]CExpr{}, bound: map[string]bool{}}
+	var ps []rParam
+	for i, p := range fn.Params {
+		k := replayKind(p.Type())
+		name := p.Name()
+		if name == "" || name == "_" {
+			name = fmt.Sprintf("p%d", i)
+		}
+		if k == "" {
+			return nil, "parameter " + name + " of type " + p.Type().String() + " cannot be built from a model"
+		}
+		rp := rParam{name: name, kind: k, T: p.Type()}
+		ps = append(ps, rp)
+		tr.params[name] = rp
+	}
+	res := fn.Signature.Results()
+	for i := 0; i < res.Len(); i++ {
+		tr.results = append(tr.results, rParam{name: fmt.Sprintf("r%d", i), kind: replayKind(res.At(i).Type()), T: res.At(i).Type()})
+	}
+	post := tr.expr(clause.Expr)
+	if tr.err != nil {
+		return nil, "postcondition outside the translatable subset: " + tr.err.Error()
+	}
+	// ---- model values
+	query := o.query()
+	var terms []string
+	for _, p := range ps {
+		v := fg.params[p.name]
+		if v == nil {
+			return nil, "parameter not bound"
+		}
+		switch p.kind {
+		case "int", "bool":
+			terms = append(terms, v.L[0].S)
+		case "string":
+			terms = append(terms, fg.strLen(v.L[0]).S)
+		case "bytes", "ints":
+			terms = append(terms, v.L[0].S, v.L[1].S, v.L[2].S)
+		}
+	}
+	// prefer a small model: slices and strings of at most 48 elements (dropped if there is no such model)
+	var small []string
+	for _, p := range ps {
+		v := fg.params[p.name]
+		switch p.kind {
+		case "string":
+			small = append(small, fmt.Sprintf("(<= %s 48)", fg.strLen(v.L[0]).S))
+		case "bytes", "ints":
+			small = append(small, fmt.Sprintf("(<= %s 48)", v.L[2].S))
+		}
+	}
+	vals, ok := getValues(work, fmt.Sprintf("%04da", idx), query, small, terms)
+	if !ok && len(small) > 0 {
+		vals, ok = getValues(work, fmt.Sprintf("%04da2", idx), query, nil, terms)
+	}
+	if !ok {
+		if rq, _ := o.relaxedQuery(); rq != "" {
+			query = rq
+			vals, ok = getValues(work, fmt.Sprintf("%04dar", idx), query, small, terms)
+			if !ok && len(small) > 0 {
+				vals, ok = getValues(work, fmt.Sprintf("%04dar2", idx), query, nil, terms)
+			}
+		}
+	}
+	if !ok {
+		return nil, "the solver gives no model for the parameters"
+	}
+	const maxLen = 512
+	var pins, terms2 []string
+	type sl struct{ arr, off, n int64 }
+	scal := map[string]string{}
+	lens := map[string]sl{}
+	k := 0
+	for _, p := range ps {
+		v := fg.params[p.name]
+		switch p.kind {
+		case "int":
+			n, ok := sexpInt(vals[k])
+			if !ok {
+				return nil, "unreadable model value"
+			}
+			scal[p.name] = fmt.Sprint(n)
+			pins = append(pins, fmt.Sprintf("(= %s %s)", v.L[0].S, smtInt(n)))
+			k++
+		case "bool":
+			scal[p.name] = vals[k].atom
+			pins = append(pins, fmt.Sprintf("(= %s %s)", v.L[0].S, vals[k].atom))
+			k++
+		case "string":
+			n, ok := sexpInt(vals[k])
+			if !ok || n < 0 || n > maxLen {
+				return nil, "string length in the model is out of the replay range"
+			}
+			lens[p.name] = sl{n: n}
+			pins = append(pins, fmt.Sprintf("(= %s %d)", fg.strLen(v.L[0]).S, n))
+			for i := int64(0); i < n; i++ {
+				terms2 = append(terms2, fg.strAt(v.L[0], IntLit(i)).S)
+			}
+			k++
+		case "bytes", "ints":
+			a, ok1 := sexpInt(vals[k])
+			off, ok2 := sexpInt(vals[k+1])
+			n, ok3 := sexpInt(vals[k+2])
+			if !ok1 || !ok2 || !ok3 || n < 0 || n > maxLen {
+				return nil, "slice length in the model is out of the replay range"
+			}
+			lens[p.name] = sl{a, off, n}
+			pins = append(pins, fmt.Sprintf("(= %s %s)", v.L[0].S, smtInt(a)), fmt.Sprintf("(= %s %s)", v.L[1].S, smtInt(off)), fmt.Sprintf("(= %s %d)", v.L[2].S, n))
+			et := types.Unalias(p.T).Underlying().(*types.Slice).Elem()
+			comp := "E:" + typeKey(et)
+			ev, has := fg.entry.ver[comp]
+			for i := int64(0); i < n; i++ {
+				if has {
+					terms2 = append(terms2, Select(Select(ev, v.L[0]), Add(v.L[1], IntLit(i))).S)
+				}
+			}
+			if !has && n > 0 {
+				return nil, "element component not part of the query"
+			}
+			k += 3
+		}
+	}
+	var elems []*sexp
+	if len(terms2) > 0 {
+		elems, ok = getValues(work, fmt.Sprintf("%04db", idx), query, pins, terms2)
+		if !ok {
+			return nil, "the solver gives no model for the elements"
+		}
+	}
+	// ---- Go literals
+	var decl, args, inputs []string
+	e := 0
+	for _, p := range ps {
+		T := tr.typeStr(p.T)
+		n := "a_" + p.name
+		switch p.kind {
+		case "int":
+			decl = append(decl, fmt.Sprintf("\tvar %s %s = %s", n, T, intLitFor(p.T, scal[p.name])))
+			inputs = append(inputs, p.name+"="+scal[p.name])
+		case "bool":
+			decl = append(decl, fmt.Sprintf("\tvar %s %s = %s", n, T, scal[p.name]))
+			inputs = append(inputs, p.name+"="+scal[p.name])
+		case "string", "bytes", "ints":
+			var xs []string
+			for i := int64(0); i < lens[p.name].n; i++ {
+				v, ok := sexpInt(elems[e])
+				e++
+				if !ok {
+					return nil, "unreadable element value"
+				}
+				if p.kind != "ints" {
+					v = ((v % 256) + 256) % 256
+				}
+				xs = append(xs, fmt.Sprint(v))
+			}
+			switch p.kind {
+			case "string":
+				decl = append(decl, fmt.Sprintf("\tvar %s %s = %s(string([]byte{%s}))", n, T, T, strings.Join(xs, ", ")))
+			default:
+				decl = append(decl, fmt.Sprintf("\tvar %s %s = %s{%s}", n, T, T, strings.Join(xs, ", ")))
+				decl = append(decl, fmt.Sprintf("\t%s_old := append(%s(nil), %s...)", n, T, n), fmt.Sprintf("\t_ = %s_old", n))
+			}
+			inputs = append(inputs, fmt.Sprintf("%s=[%s]", p.name, strings.Join(xs, " ")))
+		}
+		args = append(args, n)
+	}
+	var rs []string
+	for i := range tr.results {
+		rs = append(rs, fmt.Sprintf("r%d", i))
+	}
+	call := fn.Name() + "(" + strings.Join(args, ", ") + ")"
+	if len(rs) > 0 {
+		call = strings.Join(rs, ", ") + " := " + call
+	}
+	testName := fmt.Sprintf("TestVerifReplay%04d", idx)
+	var imp []string
+	imp = append(imp, "\t\"testing\"")
+	var paths []string
+	for p := range tr.imports {
+		paths = append(paths, p)
+	}
+	sort.Strings(paths)
+	for _, p := range paths {
+		imp = append(imp, fmt.Sprintf("\t%s %q", tr.imports[p], p))
+	}
+	var uses []string
+	for _, r := range rs {
+		uses = append(uses, "\t_ = "+r)
+	}
+	src := fmt.Sprintf(`package %s
+
+// generated by govc: replay of the model of a refuted postcondition on the real code
+// obligation: %s
+// postcondition: %s
+
+import (
+%s
+)
+
+func %s(t *testing.T) {
+%s
+	%s
+%s
+	if !(%s) {
+		t.Fatalf("VERIF-REPLAY-VIOLATED postcondition does not hold on the real code for %s")
+	}
+	t.Logf("VERIF-REPLAY-HELD")
+}
+`, fn.Pkg.Pkg.Name(), o.Name, clause.Src, strings.Join(imp, "\n"), testName, strings.Join(decl, "\n"), call, strings.Join(uses, "\n"), post, strings.ReplaceAll(strings.Join(inputs, ", "), `"`, `'`))
+	pkgDir := filepath.Dir(fg.g.fset.Position(fn.Pos()).Filename)
+	modDir := pkgDir
+	for modDir != "/" && modDir != "." {
+		if _, err := os.Stat(filepath.Join(modDir, "go.mod")); err == nil {
+			break
+		}
+		modDir = filepath.Dir(modDir)
+	}
+	rel, _ := filepath.Rel(modDir, pkgDir)
+	return &ReplaySpec{ModuleDir: modDir, PkgDir: pkgDir, PkgRel: "./" + rel, TestName: testName,
+		TestFile: filepath.Join(pkgDir, fmt.Sprintf("zz_verif_replay_%04d_test.go", idx)), TestSrc: src, Inputs: strings.Join(inputs, ", ")}, ""
+}
+
+func smtInt(n int64) string {
+	if n < 0 {
+		return fmt.Sprintf("(- %d)", -n)
+	}
+	return fmt.Sprint(n)
+}
+
+func intLitFor(T types.Type, v string) string {
+	// a model value outside the range of the parameter type cannot occur (range facts are part of the query)
+	return v
+}
+
+// runReplayTest injects the generated test with -overlay and returns the output of go test.
+func runReplayTest(sp *ReplaySpec) string {
+	dir, err := os.MkdirTemp("", "govc_replay_")
+	if err != nil {
+		return "not replayed: " + err.Error()
+	}
+	defer os.RemoveAll(dir)
+	tf := filepath.Join(dir, "replay_test.go")
+	_ = os.WriteFile(tf, []byte(sp.TestSrc), 0o644)
+	ov := map[string]map[string]string{"Replace": {sp.TestFile: tf}}
+	if prev := os.Getenv("GOVC_OVERLAY"); prev != "" {
+		// the check itself runs on an overlay (self-test mutants): the replay must see the same code
+		if data, err := os.ReadFile(prev); err == nil {
+			var m map[string]string
+			if json.Unmarshal(data, &m) == nil {
+				for k, v := range m {
+					ov["Replace"][k] = v
+				}
+			}
+		}
+	}
+	ovData, _ := json.Marshal(ov)
+	ovf := filepath.Join(dir, "overlay.json")
+	_ = os.WriteFile(ovf, ovData, 0o644)
+	ctx, cancel := context.WithTimeout(context.Background(), 180*time.Second)
+	defer cancel()
+	cmd := exec.CommandContext(ctx, "go", "test", "-overlay", ovf, "-vet=off", "-count=1", "-timeout", "60s", "-run", "^"+sp.TestName+"$", "-v", sp.PkgRel)
+	cmd.Dir = sp.ModuleDir
+	env := []string{}
+	for _, kv := range os.Environ() {
+		if strings.HasPrefix(kv, "GOFLAGS=") || strings.HasPrefix(kv, "GOTOOLCHAIN=") || strings.HasPrefix(kv, "PATH=") || strings.HasPrefix(kv, "GOSUMDB=") {
+			continue
+		}
+		env = append(env, kv)
+	}
+	path := os.Getenv("PATH")
+	// the repository's own toolchain, not the one the verifier is built with
+	var keep []string
+	for _, p := range strings.Split(path, ":") {
+		if !strings.Contains(p, "go1.26.8") {
+			keep = append(keep, p)
+		}
+	}
+	// GOSUMDB=off would break the switch to the repository's toolchain (it is in the module cache); the workspace
+	// rejects -mod=mod
+	env = append(env, "PATH="+strings.Join(keep, ":"), "GOFLAGS=", "GOPROXY=off")
+	cmd.Env = env
+	out, _ := cmd.CombinedOutput()
+	s := string(out)
+	if len(s) > 4000 {
+		s = s[:4000]
+	}
+	return s
+}
+
+// replayObligation runs the generated test against the real code.
 func replayObligation(verifDir, repoRoot, id string, o *OblReport, replay map[string]any) bool {
-	replay["replay"] = "no replay adapter for this function: the obligation and the solver's verdict are the evidence"
+	if o.Replay == nil {
+		why := o.ReplayWhyNot
+		if why == "" {
+			why = "no model of the inputs (the verdict is not `refuted`), or the obligation is not a postcondition"
+		}
+		replay["replay"] = "not replayed: " + why + "; the obligation and the solver's verdict are the evidence"
+		return false
+	}
+	sp := o.Replay
+	replay["replay_inputs"] = sp.Inputs
+	replay["replay_test"] = sp.TestSrc
+	replay["replay_spec"] = sp
+	s := runReplayTest(sp)
+	replay["replay_output"] = s
+	replay["how_to_replay"] = "save replay_test as " + sp.TestFile + " and run: cd " + sp.ModuleDir + " && go test -vet=off -count=1 -run '^" + sp.TestName + "$' " + sp.PkgRel
+	switch {
+	case strings.Contains(s, "VERIF-REPLAY-VIOLATED"):
+		replay["replay"] = "REPLAYED: the real function violates the postcondition for the model's inputs (" + sp.Inputs + ")"
+		return true
+	case strings.Contains(s, "panic:") && strings.Contains(s, sp.TestName):
+		replay["replay"] = "REPLAYED: the real function panics for the model's inputs (" + sp.Inputs + ")"
+		return true
+	case strings.Contains(s, "VERIF-REPLAY-HELD"):
+		replay["replay"] = "the model's inputs (" + sp.Inputs + ") do not violate the postcondition on the real code: the model is spurious for the real code (over-approximation in the encoding) or the violation needs a different input"
+	default:
+		replay["replay"] = "the generated test did not run to a verdict (see replay_output)"
+	}
 	return false
 }
